@@ -30,8 +30,10 @@ structure Inv (s : State K V P) : Prop where
   value : ∀ c, s.cv.vals c = stackValue (s.bases c) (s.stacks c)
   wf : ∀ c, WFStack (s.bases c) (s.stacks c)
 
-theorem inv_init : Inv (init : State K V P) := by
-  constructor <;> simp [init, ContextVars.init, stackValue, WFStack]
+theorem inv_initT (truthy : P → Bool) : Inv (initT truthy : State K V P) := by
+  constructor <;> simp [initT, ContextVars.init, stackValue, WFStack]
+
+theorem inv_init : Inv (init : State K V P) := inv_initT _
 
 /-- tie G: however a block is left – normally, by an `Exception`, by a `BaseException` that is not an
 `Exception` (KeyboardInterrupt, SystemExit, GeneratorExit, asyncio.CancelledError) –
